@@ -1,8 +1,9 @@
 (* C02 -- SMILES write -> read is lossless; canonical strings never collide.  Statements only.
    Model: Model.Writer (writer: Smiles._smiles, _format_atom, _format_bond, __ct_map, _format_cxsmiles; reader side: _tokenize
    on the SMILES alphabet and _atom_parse).  Tables regenerated from chython/algorithms/smiles.py,
-   chython/files/daylight/tokenize.py and chython/periodictable on every run (Gen.SmilesTables, Gen.Elements).
-   Proofs: Proofs.WriterProofs*. *)
+   chython/files/daylight/tokenize.py and chython/periodictable on every run (Gen.SmilesTables, Gen.SmilesMore, Gen.Elements).
+   Reader's parser: Model.Parser / Model.SmilesAst (C03), used by the read_write_graph clauses at the end.
+   Proofs: Proofs.WriterProofs*, WriterWf*, WriterSeq*, WriterGenTies. *)
 From Coq Require Import ZArith List String Ascii Bool.
 From Model Require Import PyBase Graph PeriodicTable Stereo Writer.
 From Gen Require Import Elements SmilesTables SmilesMore.
